@@ -532,6 +532,14 @@ func sdFailKey(line string) string {
 func (st *sdStats) report(s *sim) {
 	st.mu.Lock()
 	defer st.mu.Unlock()
+	if sdReplayVerbose {
+		for _, e := range s.events {
+			fmt.Println("  EVENT " + e)
+		}
+		for _, f := range s.fails {
+			fmt.Println("  MONITOR " + f)
+		}
+	}
 	for _, f := range s.fails {
 		if !strings.HasPrefix(f, "SIMFAIL prop=C08 ") {
 			// monitors of other properties share the simulator; their wire view does not know that a SHUTDOWN
@@ -1158,3 +1166,48 @@ func runSdTransportLoss(t *testing.T, store *sdRecStore, st *sdStats) int {
 	}
 	return runs
 }
+
+// TestVerifSimSdOne replays one schedule: VERIF_SD_PLAN="crossed/dataA/dataB/fault@pos,fault@pos" (e.g. "true/2/0/swap@5,drop@9");
+// prints every monitor line (all properties) and the event log.
+func TestVerifSimSdOne(t *testing.T) {
+	spec := os.Getenv("VERIF_SD_PLAN")
+	if spec == "" {
+		t.Skip("VERIF_SD_PLAN not set")
+	}
+	parts := strings.Split(spec, "/")
+	if len(parts) < 3 {
+		t.Fatalf("bad VERIF_SD_PLAN")
+	}
+	sc := sdScenario{crossed: parts[0] == "true"}
+	fmt.Sscanf(parts[1], "%d", &sc.dataA)
+	fmt.Sscanf(parts[2], "%d", &sc.dataB)
+	if len(parts) > 3 && parts[3] != "" {
+		for _, f := range strings.Split(parts[3], ",") {
+			var name string
+			var pos int
+			at := strings.Index(f, "@")
+			if at < 0 {
+				t.Fatalf("bad fault %q", f)
+			}
+			name = f[:at]
+			fmt.Sscanf(f[at+1:], "%d", &pos)
+			kind := -1
+			for i, n := range sdFaultNames {
+				if n == name {
+					kind = i
+				}
+			}
+			if kind < 0 {
+				t.Fatalf("bad fault %q", f)
+			}
+			sc.plan = append(sc.plan, sdFault{pos: pos, kind: kind})
+		}
+	}
+	sdReplayVerbose = true
+	defer func() { sdReplayVerbose = false }()
+	st := &sdStats{printed: map[string]int{}}
+	n, ok := runSdScenario(t, sc, newSdRecStore(), st)
+	fmt.Printf("SIMSDONE %s decisions=%d applicable=%v c08_fails=%d other_monitor_lines=%d\n", sc.label(), n, ok, st.fails, st.foreign)
+}
+
+var sdReplayVerbose bool
